@@ -55,6 +55,7 @@ type Plan struct {
 	Draws    int    `json:"draws"`     // power-loss draws per cut
 	OnlyCut  uint64 `json:"only_cut"`  // >0: minimised replay evaluates the cut after this sequence number ...
 	OnlyDraw int    `json:"only_draw"` // ... and this draw (0 = process crash, k = k-th power-loss draw)
+	Expect   string `json:"expect"`    // oracle class found at OnlyCut (replay looks for this class first)
 }
 
 func gen(r *simcore.Rand, tier string) any {
@@ -118,8 +119,8 @@ func shrink(pl any) []any {
 	for i, op := range p.Ops {
 		i, op := i, op
 		if (op.K == "canon" || op.K == "side") && op.N > 1 {
-			mk(func(q *Plan) { q.Ops[i].N = op.N / 2; q.OnlyCut, q.OnlyDraw = 0, 0 })
-			mk(func(q *Plan) { q.Ops[i].N = op.N - 1; q.OnlyCut, q.OnlyDraw = 0, 0 })
+			mk(func(q *Plan) { q.Ops[i].N = op.N / 2; q.OnlyCut, q.OnlyDraw, q.Expect = 0, 0, "" })
+			mk(func(q *Plan) { q.Ops[i].N = op.N - 1; q.OnlyCut, q.OnlyDraw, q.Expect = 0, 0, "" })
 		}
 	}
 	return out
@@ -358,25 +359,32 @@ var trace = os.Getenv("VERIF_TRACE") != ""
 func run(t *testing.T, pl any) *simcore.Result {
 	p := pl.(*Plan)
 	if p.OnlyCut == 0 {
-		return runOnce(t, p)
+		return runOnce(t, p, "")
 	}
 	// The tree under test iterates its table map in Go's random order, so file events
 	// of different tables may interleave differently between executions: the recorded
-	// cut is a hint; fall back to every cut of a few re-executions.
-	res := runOnce(t, p)
-	if res.Violation != nil {
+	// cut is a hint; fall back to every cut of a few re-executions, looking for the
+	// recorded violation class first.
+	res := runOnce(t, p, "")
+	if res.Violation != nil && (p.Expect == "" || res.Violation.Oracle == p.Expect) {
 		return res
 	}
-	for attempt := 0; attempt < 4; attempt++ {
+	other := res
+	for attempt := 0; attempt < 6; attempt++ {
 		q := *p
 		q.OnlyCut, q.OnlyDraw, q.MaxCuts = 0, 0, 0
-		r2 := runOnce(t, &q)
-		res.Reboots += r2.Reboots
+		r2 := runOnce(t, &q, p.Expect)
+		other.Reboots += r2.Reboots
 		if r2.Violation != nil {
-			return r2
+			if p.Expect == "" || r2.Violation.Oracle == p.Expect {
+				return r2
+			}
+			if other.Violation == nil {
+				other = r2
+			}
 		}
 	}
-	return res
+	return other
 }
 
 type world struct {
@@ -464,7 +472,7 @@ func (w *world) closeWindow(s *snap) {
 	w.wins = append(w.wins, s)
 }
 
-func runOnce(t *testing.T, p *Plan) *simcore.Result {
+func runOnce(t *testing.T, p *Plan, want string) *simcore.Result {
 	res := simcore.NewResult()
 	root, err := os.MkdirTemp(scratchDir(), "mig-")
 	if err != nil {
@@ -682,6 +690,7 @@ func runOnce(t *testing.T, p *Plan) *simcore.Result {
 	model := simdisk.NewFSModel(root)
 	applied := 0
 	stats := map[string]int{}
+	var otherV *simcore.Violation
 	flush := func() {
 		for k, n := range stats {
 			res.Faults[k] += n
@@ -726,8 +735,20 @@ func runOnce(t *testing.T, p *Plan) *simcore.Result {
 					res.KnownHit(v.Key)
 					continue
 				}
+				if trace {
+					for q := s.startSeq + 1; q <= cu.seq; q++ {
+						fmt.Printf("seq %d %s\n", q, describeSeq(events, kvlog, q, root))
+					}
+				}
+				if want != "" && v.Oracle != want {
+					// replay is looking for another class: remember this one, keep enumerating
+					if otherV == nil {
+						otherV = v
+					}
+					continue
+				}
 				if p.OnlyCut == 0 {
-					p.OnlyCut, p.OnlyDraw = cu.seq+1, d
+					p.OnlyCut, p.OnlyDraw, p.Expect = cu.seq+1, d, v.Oracle
 				}
 				flush()
 				return res.Fail(v)
@@ -735,6 +756,9 @@ func runOnce(t *testing.T, p *Plan) *simcore.Result {
 		}
 	}
 	flush()
+	if otherV != nil {
+		return res.Fail(otherV)
+	}
 	res.Faults["crash-cut"] += len(cuts)
 	res.NonTrivial = res.Reboots > 2 && res.Probes["freeze-advanced"] > 0
 	return res
